@@ -6,7 +6,7 @@ import subprocess
 import time
 
 from . import api_scen
-from .common import (BIN, ToolError, build_harness, finish, load_findings, log, save_replay, tlc_mc,
+from .common import (run_harness, BIN, ToolError, build_harness, finish, load_findings, log, save_replay, tlc_mc,
                      validate_sharded, workdir, write_evidence, WORK, SPEC)
 
 PREFIX = {p: p + "_" for p in ("C05", "C06", "C07", "C08", "C12", "C13", "C14", "C15", "C16", "C17", "C18")}
@@ -27,16 +27,12 @@ def scenarios(pid, tier, seed):
 
 def run_api(pid, tier, seed, scs, tag):
     wd = workdir("api_" + tag)
-    for d in (os.path.join(WORK, "vr"), os.path.join(WORK, "ap")):
-        os.makedirs(d, exist_ok=True)
-        os.chmod(d, 0o777)
     scen_path = os.path.join(wd, "scen.ndjson")
     with open(scen_path, "w") as f:
         for s in scs:
             f.write(json.dumps(s) + "\n")
     trace_path = os.path.join(wd, "trace.ndjson")
-    r = subprocess.run([os.path.join(BIN, "api_replay"), scen_path, trace_path], stdin=subprocess.DEVNULL,
-                       stdout=subprocess.PIPE, stderr=subprocess.PIPE, text=True, timeout=2400)
+    r = run_harness([os.path.join(BIN, "api_replay"), scen_path, trace_path], 2400)
     if r.returncode != 0:
         log(r.stderr[-3000:])
         raise ToolError("api_replay failed with status %d" % r.returncode)
